@@ -121,12 +121,32 @@ def run(chk):
 
 
 def replay(chk, path):
+    """re-executes exactly the recorded case: its inputs are fed to the current implementation again and the
+    fresh observables go through the model and the spec checkers."""
     import json
     r = json.load(open(path))
     case = r.get("case")
-    chk.log("replay: %s" % (str(case)[:400]))
+    lines = []
     if isinstance(case, str) and case.startswith("(c06 "):
-        # re-run the recorded line's inputs through the current implementation is not possible from the
-        # S-expression alone; the corpus format is the replayable one.  Run the whole check instead.
-        pass
-    run(chk)
+        lines = [case]
+    elif isinstance(case, dict):
+        lines = [e["case"] for e in case.get("examples", []) if isinstance(e.get("case"), str)]
+    chk.coverage["rule"] = RULE
+    chk.proof_side()
+    ok, log = vlib.build_model("C06")
+    ok2, log2, exe = vlib.build_harness("c06")
+    if not (ok and ok2) or not lines:
+        chk.add_violation("tie:C06/replay", "cannot replay: %s" % ((log + log2)[-500:] or "no case line in the replay file"),
+                          found_input=False)
+        return
+    src = os.path.join(chk.work, "replay.in")
+    with open(src, "w") as f:
+        f.write("\n".join(lines) + "\n")
+    state = {}
+    b = vlib.run_batch(chk, "%s replay -in %s -out {out}" % (exe, src), os.path.join(vlib.BIN, "model_c06"), "replay")
+    if b:
+        vlib.digest_batch(chk, b[0], b[1], classify, state)
+        chk.coverage["samples"] = [c[:600] for c in b[0][:2]]
+        for (ln, st, d) in b[1]:
+            chk.log("replay line %d: %s %s" % (ln, st, d[:300]))
+    vlib.conclude_differential(chk, state, None)
